@@ -614,6 +614,16 @@ impl Recv {
                             .recv_flow
                             .dec_recv_window(dec)
                             .map_err(proto::Error::library_go_away)?;
+
+                        // Capacity that was released but not yet announced is
+                        // still owed to the peer, and the lower window also
+                        // lowers the update threshold. The peer's window may now
+                        // be zero or negative, so no later release would trigger
+                        // the WINDOW_UPDATE: schedule it here.
+                        if stream.recv_flow.unclaimed_capacity().is_some() {
+                            self.pending_window_updates.push(&mut stream);
+                        }
+
                         Ok::<_, proto::Error>(())
                     })?;
                 }
